@@ -1,6 +1,7 @@
 package service
 
 import (
+	"bytes"
 	"encoding/json"
 	"fmt"
 	"math/big"
@@ -159,7 +160,63 @@ func RawRequest(method, path string, body []byte, frame int) []byte {
 // Valid returns a request carrying a fresh valid batch.
 func (g *Gen) Valid() *Request {
 	doc, h := g.validDoc()
-	return g.post(render(doc), "valid", Expect{Status: 200}, h)
+	body := render(doc)
+	kind := "valid"
+	switch g.T.Weighted(12, 2, 1) {
+	case 1:
+		// the same numbers with upper-case hexadecimal digits (still 0x-hexadecimal notation)
+		body = upperHexDigits(body)
+		kind = "valid/upper-case-hex-digits"
+	case 2:
+		// insignificant JSON whitespace: a large but perfectly valid document
+		pad := bytes.Repeat([]byte(" \n\t "), 2000+g.T.Draw(40000))
+		body = append(append([]byte("{"), pad...), body[1:]...)
+		kind = "valid/whitespace-padded"
+	}
+	r := g.post(body, kind, Expect{Status: 200}, h)
+	r.Doc = doc
+	return r
+}
+
+// upperHexDigits upper-cases the digits a-f inside every "0x..." string of a JSON document.
+func upperHexDigits(b []byte) []byte {
+	out := append([]byte{}, b...)
+	for i := 0; i+2 < len(out); i++ {
+		if out[i] == '"' && out[i+1] == '0' && out[i+2] == 'x' {
+			for j := i + 3; j < len(out) && out[j] != '"'; j++ {
+				if out[j] >= 'a' && out[j] <= 'f' {
+					out[j] -= 32
+				}
+			}
+		}
+	}
+	return out
+}
+
+// InvalidVariantOf returns a request that shares input hash and pre-root with an earlier valid
+// request but does not describe a valid batch (a key-too-coarse cache would confuse the two).
+func (g *Gen) InvalidVariantOf(prev *Request) *Request {
+	if prev == nil || prev.Doc == nil {
+		return g.InvalidBatch()
+	}
+	b, _ := json.Marshal(prev.Doc)
+	var doc map[string]any
+	json.Unmarshal(b, &doc)
+	kind := ""
+	if g.T.Chance(1, 2) {
+		doc["postRoot"] = hx(g.T.BigBelow(oracle.R)) // same hash and pre-root, other post-root
+		kind = "same-hash-and-pre-root-other-post-root"
+	} else {
+		ic := doc["identityCommitments"].([]any)
+		if g.Sys.Mode == rollup.Insertion {
+			ic[g.T.Pick(len(ic))] = hx(g.T.BigBelow(oracle.R))
+			kind = "same-hash-and-roots-other-commitment"
+		} else {
+			doc["preRoot"] = hx(g.T.BigBelow(oracle.R))
+			kind = "same-hash-other-pre-root"
+		}
+	}
+	return g.post(render(doc), "invalid-batch/variant-"+kind, Expect{Status: 400, Code: "proving_error"}, nil)
 }
 
 // InvalidBatch: well-formed document that does not describe a valid batch.
@@ -230,10 +287,26 @@ func (g *Gen) WrongShape() *Request {
 	default:
 		if g.Sys.Mode == rollup.Deletion {
 			di := doc["deletionIndices"].([]any)
-			doc["deletionIndices"] = di[:len(di)-1]
-			kind = "indices-short"
+			switch t.Draw(4) {
+			case 0:
+				doc["deletionIndices"] = di[:len(di)-1]
+				kind = "indices-short"
+			case 1:
+				doc["deletionIndices"] = []any{}
+				kind = "no-indices"
+			case 2:
+				doc["identityCommitments"] = []any{}
+				kind = "no-commitments"
+			default:
+				doc["identityCommitments"] = []any{}
+				doc["merkleProofs"] = []any{}
+				kind = "no-commitments-no-proofs"
+			}
 		} else {
 			doc["identityCommitments"] = []any{}
+			if t.Chance(1, 2) {
+				doc["merkleProofs"] = []any{}
+			}
 			kind = "no-commitments"
 		}
 	}
